@@ -245,6 +245,17 @@ def r6(ctx, prog):
             r = AC.norm(M.render(AC.positional(cv.pv.of_local(0), cv.env)))
             want = "Result::Ok{std::iter::Iterator::collect(std::iter::Iterator::take(essential_vm::crypto::bytes_from_words(std::iter::Iterator::copied(slice::iter($2))), <T as std::convert::TryInto<U>>::try_into(pop(^1)?)?))}"
             ctx.ob("R6", "pop_bytes:bytes-of-the-words-in-stack-order-cut-to-len", r == want, c.loc(0), "closure returns %s" % r[:230], c)
+    pw = prog.fn("essential_vm::stack::Stack::pop_words")
+    if ctx.anchor("R6", "fn Stack::pop_words", pw):
+        ctx.saw(pw)
+        v = AC.View(prog, pw)
+        cb, ct = v.one(r"ops::FnOnce::call_once$|ops::FnMut::call_mut$|ops::Fn::call$")
+        tup = M.peel(v.term(ct, 1)) if ct else None
+        got = [v.form(s_) for s_ in tup.sub] if tup is not None and tup.kind == "aggr" else []
+        tb, tt = v.one(r"Vec::truncate$")
+        tr = v.arg(tt, 1) if tt else "?"
+        ctx.ob("R6", "pop_words:hands-over-the-top-n-words-and-removes-them", got == ["slice_split_len($1, $2)?.1"] and tr == "slice::len(slice_split_len($1, $2)?.0)", pw.loc(0),
+               "f(%s); truncate(%s): the words directly beneath the length word, in stack order" % (got, tr), pw)
     bw = prog.fn("essential_vm::crypto::bytes_from_words")
     if ctx.anchor("R6", "fn bytes_from_words", bw):
         r = AC.norm(M.render(AC.positional(prog.prov(bw).of_local(0))))
